@@ -184,6 +184,7 @@ def run(plan, sched_values=None, sched_seed=0):
     # token) hands each packet to whichever reader the server wakes first:
     # what its own client sees, and therefore does, is not comparable
     contended = set()
+    lapsed = set()
     for idx in sa:
         for j in sa:
             if j != idx and sa[idx]['sid'] and any(
@@ -264,6 +265,17 @@ def run(plan, sched_values=None, sched_seed=0):
                 late = [t for _r, t in (sda + sdb)]
                 grey = (not imm and sil and (
                     not late or max(late) > end - (I + 3 * T + 1))) or stuck
+                if not grey and not imm and sil:
+                    # a peer that missed a deadline and then answered again
+                    # is not silent: the server that happened to look during
+                    # the lapse ends the session, the other need not
+                    fs = fa if len(sda) < len(sdb) else fb
+                    t0 = min(cz[1] for cz in sil)
+                    if sid in fs.sess and any(
+                            t >= t0 - T for t in fs.pong_arrivals(sid, True)):
+                        grey = True
+                        lapsed.add(idx)
+                        pr['lapse_then_pong'] = 1
                 if not grey:
                     v.append(V('same-events',
                                'diff|disconnect-count|%d-vs-%d' % (
@@ -339,7 +351,8 @@ def run(plan, sched_values=None, sched_seed=0):
     for (ta, rowa), (tb, rowb) in zip(na, nb):
         pr['compared_snapshots'] = pr.get('compared_snapshots', 0) + 1
         for idx in rowa:
-            if rowa[idx] == rowb.get(idx) or idx in contended:
+            if rowa[idx] == rowb.get(idx) or idx in contended or \
+                    idx in lapsed:
                 continue
             a = sa.get(idx, {})
             causes = [cz for sid in a.get('causes', {})
